@@ -66,6 +66,23 @@ theorem C33_row_values (cfg : Config) (n : Nat) (idx : List Nat) (r : Rec) (h : 
       simp only [rowOf, List.mem_map]
       exact ⟨ci, hci, by rw [hv]; rfl⟩
 
+/-! ## the general form of the silent truncation -/
+
+/-- For EVERY file of the shape (well-formed records) ++ [record with a wrong field count or a bare
+    quote] ++ (anything at all) and every chunk size: the load ends with status ok, and what was
+    handed to the writer is exactly the rows before the malformed record.  The malformed record and
+    everything after it are dropped without an error. -/
+theorem C33_truncation (cfg : Config) (header : Rec) (good : List Rec) (bad : Rec) (rest : List Rec)
+    (idx : List Nat) (k : Nat) (hk : 1 ≤ k) (hcfg : GoodCfg cfg)
+    (hmeta : readMetadata cfg header = some (0, idx))
+    (hgood : ∀ r ∈ good, GoodRec cfg header.length idx r) (hbad : BadRec header.length bad) :
+    (load cfg header (good ++ bad :: rest) k).status = .ok ∧
+    (load cfg header (good ++ bad :: rest) k).chunks.flatten = good.map (rowOf cfg idx) := by
+  unfold load
+  rw [hmeta]
+  simp only [bne_self_eq_false, Bool.false_eq_true, if_false]
+  exact loadLoop_truncated cfg header.length idx k hk hcfg.tz hcfg.noBool bad rest hbad _ good (by omega) hgood
+
 /-! ## the full statement is false of the code -/
 
 def isPanic : Status → Bool
